@@ -14,23 +14,25 @@ HUNG_AFTER = 30.0      # a SIGKILLed process group that has not been reaped afte
 MARKER = "change-prompt(> )"
 
 
-def tail_for(kinds):
-    """Shell fragment run after the command has logged and printed its identity line: by item index modulo len(kinds)."""
-    frag = {"instant": ":", "slow": "sleep 0.3", "endless": "sleep 1000",
-            "incr": "for i in 1 2 3; do sleep 0.12; echo L$i; done",
-            "incrlong": "for i in 1 2; do sleep 0.15; echo L$i; done; sleep 1000",
-            "ticking": "while :; do sleep 0.25; echo T; done"}
-    arms = " ".join("%d) %s;;" % (i, frag[k]) for i, k in enumerate(kinds))
-    return "N={n}; case $(( ${N:-0} %% %d )) in %s esac" % (len(kinds), arms)
+FRAG = {"instant": ":", "mute": ":", "slow": "sleep 0.3", "endless": "sleep 1000",
+        "incr": "for i in 1 2 3; do sleep 0.12; echo L$i; done",
+        "incrlong": "for i in 1 2; do sleep 0.15; echo L$i; done; sleep 1000",
+        "ticking": "while :; do sleep 0.25; echo T; done"}
 
 
 def command(tag, kinds, lead=0):
-    """lead: seconds the command stays silent before it logs and prints its identity line."""
+    """The preview command: takes the session lock for its lifetime, appends `start|pid|identity line` to the LOG, prints
+    the identity line (kind `mute`: prints NOTHING), then behaves by kind = kinds[item index mod len(kinds)].
+    lead: seconds the command stays silent before it logs and prints."""
     codes = TEMPLATES[tag]
     fmt = tag + "".join("|%s" for _ in codes)
     args = " ".join(WORDS[c] for c in codes)
-    return ("exec 9>>\"$VLOCK\"; flock -n 9 || echo \"overlap|$$\" >> \"$VLOG\"; %sL=$(printf '%s' %s); "
-            "echo \"start|$$|$L\" >> \"$VLOG\"; echo \"$L\"; %s" % ("sleep %s; " % lead if lead else "", fmt, args, tail_for(kinds)))
+    mute = "|".join(str(i) for i, k in enumerate(kinds) if k == "mute")
+    arms = " ".join("%d) %s;;" % (i, FRAG[k]) for i, k in enumerate(kinds))
+    return ("exec 9>>\"$VLOCK\"; flock -n 9 || echo \"overlap|$$\" >> \"$VLOG\"; %sN={n}; K=$(( ${N:-0} %% %d )); L=$(printf '%s' %s); "
+            "echo \"start|$$|$L\" >> \"$VLOG\"; %s case $K in %s esac" % (
+                "sleep %s; " % lead if lead else "", len(kinds), fmt, args,
+                ("case $K in %s) ;; *) echo \"$L\";; esac;" % mute) if mute else "echo \"$L\";", arms))
 
 
 def kind_of(kinds, item):
@@ -369,7 +371,7 @@ def run_session(ctx, fzf, plan, record_unsettled=False):
 # ------------------------------------------------------------------ projection onto Trace_Preview events
 def project(plan, texts, cmds, tr, quiet, quiet_at, exit_ev):
     tagof = {c: t for t, c in cmds.items()}
-    evs = [{"ev": "begin", "sid": plan.sid, "texts": texts, "tmpls": TEMPLATES, "tag": plan.tag, "label": plan.label}]
+    evs = [{"ev": "begin", "sid": plan.sid, "texts": texts, "tmpls": TEMPLATES, "kinds": plan.kinds, "tag": plan.tag, "label": plan.label}]
     last_disp = None
     during = ""                                  # the action being executed (term.act ... term.loop happen under t.mutex)
     for i, e in enumerate(tr):
